@@ -9,6 +9,7 @@ import (
 type checkFn func(*Ctx) (string, []string)
 
 var registry = map[string]checkFn{
+	"C22": checkC22,
 	"C28": checkC28,
 }
 
